@@ -13,19 +13,23 @@ CASE_TIMEOUT = 30
 TECHNIQUE = ("Lean 4 theorems about an executable model of groupby / sort index / span reductions + differential correspondence "
              "of the compiled model with the real DataFrame.groupby and Session.aggregate_* calls")
 LEVEL_TEXT = ("Proof, for all inputs, over the executable Lean model (Model/GroupBy.lean, Model/SortIndex.lean, Model/Spans.lean) that "
-              "the driver runs: the multi-key sort index is the stable lexicographic sort; groupby(...).count/min/max/first/last/"
-              "distinct on numeric and fixed-string targets and first/last on indexed-string targets return one row per distinct key "
-              "tuple, ascending, with the aggregate of that key's rows taken in original order, sorted or not, with or without a "
-              "truthful hint, with no out-of-bounds access; counts sum to the row count; Session.aggregate_* agrees on sorted "
-              "indexes. The theorems assume that stacking the key columns does not change how their values compare (true whenever "
-              "all key columns have one dtype); mixed dtypes are the recorded finding D20 (witness theorems).")
+              "the driver runs: the multi-key sort index is the stable lexicographic sort; groupby(...).count / min / max / first / "
+              "last / distinct and drop_duplicates return one row per distinct key tuple, ascending, with the aggregate of that "
+              "key's rows taken in original order - for numeric, fixed-string and indexed-string targets (strings bytewise "
+              "lexicographic), sorted or not, with or without a truthful hint (which is shown to be unobservable), with no "
+              "out-of-bounds access and no spurious error; counts sum to the row count; Session.aggregate_* returns the same "
+              "values on an ascending index; the specification determines the result. The theorems assume that stacking the key "
+              "columns does not change how their values compare (true whenever all key columns have one dtype - proved as the "
+              "unconditional `groupby_eq_spec` family); mixed dtypes are the recorded finding D20 (witness theorems).")
 LEVEL_NOTE = ("Trusted: Lean kernel; the hand-written model is validated against the real code by the differential run (exhaustive "
               "frames up to 4/6 rows, all string sequences up to 3/4 rows for string min/max, seeded random frames to 3000 rows, "
               "int64 keys beyond 2^53, mixed key dtypes), not verified against the Python text; numpy's stable argsort is modelled by "
               "List.mergeSort, numpy's promotion when stacking key columns by a per-column cast (float64 rounding / decimal text) "
-              "chosen by the harness from the dtypes; fixed strings are rank-coded (the kernels only compare). Indexed-string "
-              "min/max (byte loop of apply_spans_index_of_min/max_indexed) is covered by the correspondence and by C08's kernel "
-              "theorems, not by a C07 theorem.")
+              "chosen by the harness from the dtypes; fixed strings are rank-coded (the kernels only compare), so the theorems "
+              "speak about any totally ordered value type through Int. The span kernels' own theorems are C08's "
+              "(Props/C08.lean), reused here. The theorems are about the tree with fix D18 and NC08b applied; Session.aggregate_* "
+              "with an IndexedStringField index needs fix NC07a and is covered by the correspondence only (the theorem is for "
+              "numeric indexes).")
 RULE = ("corpus (D18, D20 x3, empty frame, text-ordered ints); exhaustive: every key frame with 1 key column over {0,1,2} and <= n "
         "rows and 2 key columns over {0,1}^2 and <= m rows (quick n=4,m=3; thorough n=6,m=4) x {count, distinct/drop_duplicates, "
         "min, max, first, last} x target kind rotating (thorough: all of) numeric/fixed/indexed, hint on when the frame is sorted; "
